@@ -13,4 +13,16 @@ META = {
   "text": "Theorems (no axioms) over a Gallina model of Hierarchy: get_key_value returns an entry iff it has exactly the looked-up path or is the only entry agreeing with it on all common trailing components (and there is no exact key); several agreeing entries and no exact key give None; the answer does not depend on traversal/insertion order. Tied to the code by evaluating the model inside Coq on the maps and paths the implementation was run on (get_key_value, filter, prepend, and_then); an independent implementation of the specification is compared with the library on every case, and generated join/CTE queries with overlapping column names must refuse an unqualified ambiguous column.",
   "note": "Trusted: Coq kernel, harness, sampled correspondence. Modelled not verified: hierarchy.rs. The query-level half of the statement (sql/relation.rs, query_names.rs) is explored, not proved.",
  },
+ "C13": {
+  "technique": "Coq proof: soundness/completeness of rule-assignment search and optimality of the chosen derivation + in-Coq differential check against the real eliminator/selector/score/entry points",
+  "design_ref": "DESIGN.md section 4, C13",
+  "text": "Theorems (no axioms), for all trees, rule sets, weights and acceptance predicates: the enumeration after elimination returns exactly the consistent rule assignments; a rewriting is returned iff an acceptable consistent assignment exists (otherwise None = UnreachableProperty); the applied derivation is consistent and no acceptable consistent derivation scores strictly higher. Tied to the code by exporting real relation trees with the rules the real setter attached and comparing, inside Coq, the eliminated tree, the list of derivations, their scores and the signature of the relation the entry point returned with the model's.",
+  "note": "Trusted: Coq kernel, vm_compute, harness exporter, sampled correspondence. The rule table is regenerated from the code on every run. Panics of the Rewriter on candidate derivations are outside (C18).",
+ },
+ "C02": {
+  "technique": "Coq proof: label semantics (raw-data lineage) inductive over derivations, with the rule table regenerated from RewritingRulesSetter and re-proved (vm_compute) on every run",
+  "design_ref": "DESIGN.md section 4, C02",
+  "text": "Theorems: if every rule of every node satisfies the local condition rule_ok then no consistent derivation attaches Public/Published/DP/SD to a node that depends on raw protected rows without a [PUP]->DP reduce in between; rule_ok holds for the rule table generated from the code on this run (C02_table_ok by vm_compute); hence whatever rewrite_with_differential_privacy applies is clean, and a protected table is never labelled Public/Published/DP. Tied to the code by the generated table, by comparing the per-node rule lists of real trees with the table, and by an IR walk of every rewritten acceptable derivation.",
+  "note": "Trusted: Coq kernel, vm_compute, the generator, the exporter. What IR the Rewriter builds per rule is not modelled; it is checked on sampled queries by the IR walk (protected table leaf below a noise-adding map or replaced by its synthetic table).",
+ },
 }
